@@ -76,6 +76,9 @@ pub fn check(c: &OntCase, stats: &mut Stats) -> CheckResult {
     if n.not_rows.iter().any(|(k, id, _, t)| model.direct[*k as usize].get(id).is_some_and(|r| r.1.contains(t))) {
         stats.label("NOT-row-for-an-existing-link");
     }
+    if expected.ann_calls.iter().enumerate().any(|(pos, a)| a.term.is_some() && a.kind as usize != GENE && !crate::build::kept_qualifier(n, pos).is_empty()) {
+        stats.label("kept-row-with-a-qualifier-other-than-NOT");
+    }
     if !n.decipher_rows.is_empty() {
         stats.label("DECIPHER-rows");
     }
@@ -205,7 +208,7 @@ impl Property for C09 {
         "C09"
     }
     fn rule(&self) -> String {
-        "Generated: fact sets (terms incl. HP:0000001/HP:0000118, obsolete and replaced terms incl. dangling replaced_by, names with ': ' and non-ASCII text, OMIM/ORPHA/gene rows) rendered by an own renderer into hp.obo, phenotype.hpoa and genes_to_phenotype.txt / phenotype_to_genes.txt in generated stanza and row order with noise that must be ignored: '#'/column-name header variants, an hp.obo without header block (release version 0000-00-00), extra tag lines before and after name (def, synonym, xref, alt_id, comment containing 'is_a: ', created_by with nested ': '), [Typedef] stanzas with is_a lines, explicit 'is_obsolete: false', is_a lines with a trailing {modifier}, blank rows in phenotype.hpoa, NOT rows (for existing links, for other terms, for diseases that only occur negated), DECIPHER rows, '#' comment rows, extra trailing columns. Both loaders. Oracle: complete read-API snapshot = reference model of the facts (version string, one term per stanza with name/flags/replacement/parents, links, inheritance, IC, categories); identical to the snapshot of from_bytes(own v3 encoding of the facts) and, when the facts carry no flags, of the Builder API with defaults. evaluations = loads. Non-trivial = >=1 NOT row, >=1 OMIM and >=1 ORPHA row, a name containing ': ', >=1 obsolete term; distinct = hash(facts, noise, loader).".into()
+        "Generated: fact sets (terms incl. HP:0000001/HP:0000118, obsolete and replaced terms incl. dangling replaced_by, names with ': ' and non-ASCII text, OMIM/ORPHA/gene rows) rendered by an own renderer into hp.obo, phenotype.hpoa and genes_to_phenotype.txt / phenotype_to_genes.txt in generated stanza and row order with noise that must be ignored: '#'/column-name header variants, an hp.obo without header block (release version 0000-00-00), extra tag lines before and after name (def, synonym, xref, alt_id, comment containing 'is_a: ', created_by with nested ': '), [Typedef] stanzas with is_a lines, explicit 'is_obsolete: false', is_a lines with a trailing {modifier}, blank rows in phenotype.hpoa, NOT rows (for existing links, for other terms, for diseases that only occur negated), kept rows whose qualifier is a text other than exactly NOT ('not', 'Not', 'NOT ', ' NOT', 'NOTE', ...), DECIPHER rows, '#' comment rows, extra trailing columns. Both loaders. Oracle: complete read-API snapshot = reference model of the facts (version string, one term per stanza with name/flags/replacement/parents, links, inheritance, IC, categories); identical to the snapshot of from_bytes(own v3 encoding of the facts) and, when the facts carry no flags, of the Builder API with defaults. evaluations = loads. Non-trivial = >=1 NOT row, >=1 OMIM and >=1 ORPHA row, a name containing ': ', >=1 obsolete term; distinct = hash(facts, noise, loader).".into()
     }
     fn assumptions(&self) -> Vec<String> {
         vec![
@@ -221,7 +224,7 @@ impl Property for C09 {
         }
     }
     fn required_labels(&self, _tier: Tier) -> Vec<&'static str> {
-        vec!["nontrivial", "NOT-rows", "disease-only-negated", "NOT-row-for-an-existing-link", "DECIPHER-rows", "typedef-stanzas", "extra-columns", "name-with-colon-space", "non-ascii-name", "transitive-loader", "compared-with-builder", "obo-without-header", "hpoa-without-column-line", "hpoa-starts-with-a-row", "files-without-final-newline", "files-with-blank-line-at-end", "lines-longer-than-8KiB", "replacement-id-0"]
+        vec!["nontrivial", "NOT-rows", "kept-row-with-a-qualifier-other-than-NOT", "disease-only-negated", "NOT-row-for-an-existing-link", "DECIPHER-rows", "typedef-stanzas", "extra-columns", "name-with-colon-space", "non-ascii-name", "transitive-loader", "compared-with-builder", "obo-without-header", "hpoa-without-column-line", "hpoa-starts-with-a-row", "files-without-final-newline", "files-with-blank-line-at-end", "lines-longer-than-8KiB", "replacement-id-0"]
     }
     fn run_generated(&self, tier: Tier, seed: u64, n: u64, stats: &mut Stats) -> Option<(Value, Failure)> {
         run_typed(strategy(tier), seed, n, stats, check)
